@@ -18,6 +18,7 @@ theta = azimuth, phi = polar (grid's convention); rows in Horton-2 order (m = 0,
 from __future__ import annotations
 
 import functools
+import math
 
 import numpy as np
 
@@ -46,7 +47,7 @@ def row_of(l, m):
 
 
 def describe_row(row):
-    l = int(np.floor(np.sqrt(row + 0.5)))
+    l = math.isqrt(int(row))
     j = int(row) - l * l
     m = 0 if j == 0 else ((j + 1) // 2 if j % 2 else -(j // 2))
     return l, m
